@@ -603,6 +603,11 @@ func (ctx *Ctx) defer_() (err error) {
 				break
 			}
 		}
+		// Every deferred function must run once.
+		for i := 0; i < len(ctx.dfr); i++ {
+			ctx.dfr[i] = nil
+		}
+		ctx.dfr = ctx.dfr[:0]
 	}
 	return
 }
